@@ -228,7 +228,9 @@ def run_counts(ctx, rng, idx):
     # ---- hostile inputs ------------------------------------------------------
     if idx % 2 == 0:
         hk = int(rng.integers(0, 5))
-        sd = np.int32 if np.issubdtype(dtype, np.unsignedinteger) else dtype
+        # a signed type wide enough for the ids written below
+        sd = np.int32 if (np.issubdtype(dtype, np.unsignedinteger) or
+                          np.dtype(dtype).itemsize < 4) else dtype
         Xh, Yh = X0.astype(sd).copy(), gen_feat(rng, T, fy, ny, sd)
         name = ''
         kw = dict(n_x=nx, n_y=ny)
